@@ -53,6 +53,42 @@ def check_sat(assertions, timeout_ms=20000, want_model=True, fallbacks=True, tac
     return 'unknown', None, time.time() - t0, 'all'
 
 
+_PIN = {'mw': 100, 'dens': 1, 'sa': 10}
+
+
+def _pins(assertions):
+    """equalities fixing every mw/dens/sa application to a plain constant (makes most products linear)"""
+    seen, out, todo = set(), [], list(assertions)
+    while todo:
+        t = todo.pop()
+        if t.get_id() in seen:
+            continue
+        seen.add(t.get_id())
+        if z3.is_app(t):
+            if t.decl().name() in _PIN and t.num_args() == 1 and z3.is_const(t.arg(0)):
+                out.append(t == _PIN[t.decl().name()])
+            todo.extend(t.children())
+        elif z3.is_quantifier(t):
+            todo.append(t.body())
+    return out
+
+
+def cover_sat(assertions, timeout_ms=20000):
+    """Satisfiability of a cover (reachability) query.  Any model will do, so easier strengthenings are tried first:
+    sat of a strengthening implies sat of the cover; only the unstrengthened query can answer unsat."""
+    t0 = time.time()
+    st, _, _, be = check_sat(assertions, min(timeout_ms, 3000), False, False)
+    if st in ('sat', 'unsat'):
+        return st, None, time.time() - t0, be
+    pins = _pins(assertions)
+    if pins:
+        st, _, _, be = check_sat(list(assertions) + pins, min(timeout_ms, 5000), False, False)
+        if st == 'sat':
+            return st, None, time.time() - t0, be + '+pinned'
+    st, m, _, be = check_sat(assertions, timeout_ms, False, True)
+    return st, m, time.time() - t0, be
+
+
 def run_cli(cmd, smt_text, timeout_ms):
     if '(check-sat)' not in smt_text:
         smt_text += '\n(check-sat)\n'
